@@ -5,7 +5,12 @@ configuration, the COMPLETE reachable state graph of the real SwitchVector under
 operation alphabet {client write On/Off to one switch, client write naming 2..n switches
 in every order (n<=3), el.value=, el.bool_value=, selected_value=, selected_values=} is
 enumerated to fixpoint; the rule oracle is evaluated on every transition and on the children
-of every setSwitchVector published during it.
+of every setSwitchVector published during it.  For n <= 3 the graphs are also enumerated with
+driver handlers on the switches: a Change handler that republishes, Write handlers that defer
+the write (prevent_default) on all / the first / the last switch, Change and Write handlers
+that raise on the first / last switch, and a client whose connection fails while an update is
+written: an operation cut short at any point must leave the rule intact, in the state and in
+everything published.  selected_value(s) must report exactly the switches that are On.
 """
 import itertools
 
@@ -15,6 +20,13 @@ ASSUMPTIONS = [
     "a state is the tuple of switch values (complete vars() of elements: _value, _enabled) ; states are re-entered by replaying the BFS-tree path on a fresh driver",
 ]
 RULES = ("OneOfMany", "AtMostOne", "AnyOfMany")
+# driver handler configurations on the switches (the property quantifies over "whatever sequence of client writes and
+# assignments": what the driver's own handlers do with them - republish, defer, fail - is part of that sequence)
+MODES = (None, "republish", "defer-all", "defer-s0", "defer-last", "raise-change-s0", "raise-change-last", "raise-write-s0", "raise-write-last", "client-raises")
+
+
+class HandlerFault(Exception):
+    """raised by the harness's own handlers (a driver handler that fails while talking to its hardware)"""
 
 
 def shards(tier, seed):
@@ -23,21 +35,58 @@ def shards(tier, seed):
     for rule in RULES:
         for n in range(1, nmax + 1):
             for init in itertools.product((False, True), repeat=n):
-                sh.append((tier, rule, n, init, False))
+                sh.append((tier, rule, n, init, None))
                 if n <= 3:
-                    sh.append((tier, rule, n, init, True))
+                    for mode in MODES[1:]:
+                        sh.append((tier, rule, n, init, mode))
     return sh
 
 
 class Sys:
-    def __init__(self, rule, init, republish=False):
+    def __init__(self, rule, init, mode=None):
         from indi.routing import Client, Router
 
         from mc.gen import drivers as D
 
         self.router = Router()
         handlers = None
-        if republish:
+        if mode is True:
+            mode = "republish"  # replay files written before the handler modes existed
+        self.mode = mode or None
+        self.faulted = False  # a handler of the harness raised during the current operation (the driver may swallow it)
+        outer_ = self
+        n_ = len(init)
+        # elements whose client writes are deferred by a Write handler (event.prevent_default) and never confirmed
+        self.deferred = set(range(n_)) if mode == "defer-all" else ({0} if mode == "defer-s0" else ({n_ - 1} if mode == "defer-last" else set()))
+        if mode and mode.startswith("defer"):
+            from indi.device.events import Write, on
+
+            deferred = self.deferred
+
+            def handlers(defs):
+                els = list(defs["g"].vectors["sw"].elements.values())
+
+                def defer(self, event):
+                    event.prevent_default = True
+
+                return {"defer_write": on([els[i] for i in sorted(deferred)], Write)(defer)}
+
+        elif mode and mode.startswith("raise-"):
+            from indi.device.events import Change, Write, on
+
+            which = 0 if mode.endswith("s0") else n_ - 1
+            evt = Change if "change" in mode else Write
+
+            def handlers(defs):
+                els = list(defs["g"].vectors["sw"].elements.values())
+
+                def fail(self, event):
+                    outer_.faulted = True
+                    raise HandlerFault("hardware did not answer")
+
+                return {"failing_handler": on(els[which], evt)(fail)}
+
+        elif mode == "republish":
             # a synchronous Change handler on every switch that republishes the property (a driver reporting
             # "busy" while it reconfigures the hardware): whatever it publishes must satisfy the rule too
             from indi.device.events import Change, on
@@ -58,6 +107,11 @@ class Sys:
         class Rec(Client):
             def message_from_device(self, message):
                 outer.published.append(message)
+                if outer.mode == "client-raises" and outer.armed:
+                    outer.faulted = True
+                    raise HandlerFault("connection lost while the update was being written")
+
+        self.armed = False
 
         self.client = Rec()
         self.router.register_client(self.client)
@@ -71,11 +125,21 @@ class Sys:
     def on(self):
         return tuple(self.vec._elements["s%d" % i]._value == "On" for i in range(self.n))
 
+    def apply_quiet(self, op):
+        """path replay: an operation that was cut short by a failing handler when the state was first reached is cut
+        short in the same way again"""
+        try:
+            return self.apply(op)
+        except HandlerFault:
+            return None
+
     def apply(self, op):
         import indi.message as M
         from indi.message import one_parts
 
         self.published.clear()
+        self.faulted = False
+        self.armed = True
         kind = op[0]
         if kind == "client":
             ch = [one_parts.OneSwitch(name="S%d" % i, value="On" if v else "Off") for i, v in op[1]]
@@ -112,30 +176,37 @@ def ops(n, tier):
                 yield ("client", tuple(zip(idxs, vals)))
 
 
-def oracle(rule, pre, op, post, published, exc):
-    """returns list of (clause, disc, what)"""
+def oracle(rule, pre, op, post, published, exc, deferred=frozenset(), faulted=False):
+    """returns list of (clause, disc, what).  deferred: indices whose client writes a Write handler defers
+    (event.prevent_default): such a switch is not expected to change, everything else is judged as usual"""
     fails = []
     kind = op[0]
-    if exc is not None and kind != "value-none":
+    fault = isinstance(exc, HandlerFault) or faulted
+    if exc is not None and kind != "value-none" and not fault:
         from mc import lib
 
         return [("raises", "op=%s,%s" % (kind, lib.exc_site(exc)), repr(exc))]
     npre, npost = sum(pre), sum(post)
-    if kind == "value-none":
-        # refusing None is fine; whatever happens, the rule predicates hold for the state and for every publication
+    if kind == "value-none" or fault:
+        # refusing None is fine, and so is an operation cut short by a failing handler of the driver or a failing
+        # connection; whatever happens, the rule predicates hold for the state and for every publication
         pubs = [sum(1 for _, v in p if v == "On") for p in published]
-        d = "rule=%s,op=value-none" % rule
+        d = "rule=%s,op=%s" % (rule, "value-none" if kind == "value-none" else "%s,handler-fault" % (kind if kind != "client" or len(op[1]) == 1 else "client-multi"))
         if rule == "OneOfMany" and npre == 1 and (npost != 1 or any(x != 1 for x in pubs)):
             fails.append(("one-of-many", d, "pre %r op %r post %r published %r" % (pre, op, post, pubs)))
         if rule == "AtMostOne" and npre <= 1 and (npost > 1 or any(x > 1 for x in pubs)):
             fails.append(("at-most-one", d, "pre %r op %r post %r published %r" % (pre, op, post, pubs)))
-        if rule == "AnyOfMany" and any(pre[i] != post[i] for i in range(len(pre)) if i != op[1]):
-            fails.append(("any-of-many-only-named", d, "pre %r op %r post %r" % (pre, op, post)))
+        if rule == "AnyOfMany":
+            named = [op[1]] if kind in ("value-none", "value", "bool") else ([i for i, _ in op[1]] if kind == "client" else None)
+            if named is not None and any(pre[i] != post[i] for i in range(len(pre)) if i not in named):
+                fails.append(("any-of-many-only-named", d, "pre %r op %r post %r" % (pre, op, post)))
         return fails
-    # what the op names
+    # what the op names; eff = the part of a client write that no handler defers
+    eff = None
     if kind == "client":
+        eff = tuple((i, v) for i, v in op[1] if i not in deferred)
         named = [i for i, _ in op[1]]
-        turned_on = [i for i, v in op[1] if v]
+        turned_on = [i for i, v in eff if v]
     elif kind in ("value", "bool"):
         named = [op[1]]
         turned_on = [op[1]] if op[2] else []
@@ -145,7 +216,7 @@ def oracle(rule, pre, op, post, published, exc):
     else:
         named = None
         turned_on = list(op[1])
-    d = "rule=%s,op=%s" % (rule, kind if kind != "client" or len(op[1]) == 1 else "client-multi")
+    d = "rule=%s,op=%s%s" % (rule, kind if kind != "client" or len(op[1]) == 1 else "client-multi", ",deferred" if kind == "client" and len(eff) != len(op[1]) else "")
     pubs = [sum(1 for _, v in p if v == "On") for p in published]
     if rule == "OneOfMany" and npre == 1:
         if npost != 1:
@@ -161,12 +232,9 @@ def oracle(rule, pre, op, post, published, exc):
         changed = [i for i in range(len(pre)) if pre[i] != post[i]]
         if any(i not in named for i in changed):
             fails.append(("any-of-many-only-named", d, "pre %r op %r post %r" % (pre, op, post)))
-        for i, v in (op[1] if kind == "client" else [(op[1], op[2])]):
-            # last assignment to i wins
-            pass
-        if kind != "client" or len({i for i, _ in op[1]}) == len(op[1]):
-            want = dict(op[1]) if kind == "client" else {op[1]: op[2]}
-            for i, v in want.items():
+        pairs = eff if kind == "client" else ((op[1], op[2]),)
+        if len({i for i, _ in pairs}) == len(pairs):
+            for i, v in pairs:
                 if post[i] != v:
                     fails.append(("any-of-many-value", d, "pre %r op %r post %r" % (pre, op, post)))
     # turning a switch On leaves it On
@@ -177,11 +245,11 @@ def oracle(rule, pre, op, post, published, exc):
             must = []  # several names under an exclusive rule: not judged
         else:
             must = [turned_on[-1]]
-        if kind == "client" and len(op[1]) > 1 and rule != "AnyOfMany":
+        if kind == "client" and len(eff) > 1 and rule != "AnyOfMany":
             # later Off of the same / forced-on interplay: judge only if the last named On is not switched Off later
-            last_on = max(j for j, (i, v) in enumerate(op[1]) if v)
-            i_on = op[1][last_on][0]
-            later_off = any((i == i_on and not v) for i, v in op[1][last_on + 1 :])
+            last_on = max(j for j, (i, v) in enumerate(eff) if v)
+            i_on = eff[last_on][0]
+            later_off = any((i == i_on and not v) for i, v in eff[last_on + 1 :])
             must = [] if later_off else [i_on]
         for i in must:
             if not post[i]:
@@ -195,13 +263,34 @@ def oracle(rule, pre, op, post, published, exc):
     return fails
 
 
+def getters(sysm, rule, post):
+    """what selected_values / selected_value report must be the switches that are On (they are the driver author's
+    view of the same state the rule is judged on)"""
+    want = tuple("S%d" % i for i, v in enumerate(post) if v)
+    fails = []
+    try:
+        got = tuple(sysm.vec.selected_values)
+    except Exception as e:  # noqa
+        got = repr(e)
+    if got != want:
+        fails.append(("selected-values-getter", "rule=%s" % rule, "switches On %r, selected_values %r" % (want, got)))
+    if len(want) <= 1:
+        try:
+            one = sysm.vec.selected_value
+        except Exception as e:  # noqa
+            one = repr(e)
+        if one != (want[0] if want else None):
+            fails.append(("selected-value-getter", "rule=%s" % rule, "switches On %r, selected_value %r" % (want, one)))
+    return fails
+
+
 def run_shard(shard):
-    tier, rule, n, init, republish = shard
+    tier, rule, n, init, mode = shard
     res = {"states": 0, "transitions": 0, "violations": [], "samples": [], "counters": {}, "graphs": 1, "published_checked": 0}
     sig = {}
     from collections import deque
 
-    root = Sys(rule, init, republish)
+    root = Sys(rule, init, mode)
     s0 = root.state()
     parent = {s0: None}
     fr = deque([s0])
@@ -215,9 +304,9 @@ def run_shard(shard):
             path.append(op)
         path.reverse()
         for op in allops:
-            sysm = Sys(rule, init, republish)
+            sysm = Sys(rule, init, mode)
             for p in path:
-                sysm.apply(p)
+                sysm.apply_quiet(p)
             if sysm.state() != st:
                 raise AssertionError("replay divergence: path %r reached %r, expected %r" % (path, sysm.state(), st))
             pre = sysm.on()
@@ -230,13 +319,17 @@ def run_shard(shard):
             post = sysm.on()
             res["transitions"] += 1
             res["published_checked"] += len(published)
-            fails = oracle(rule, pre, op, post, published, exc)
+            if isinstance(exc, HandlerFault) or sysm.faulted:
+                published = [tuple((c.name, c.value) for c in m.children) for m in sysm.published if type(m).__name__ == "SetSwitchVector"]
+                res["handler_faults"] = res.get("handler_faults", 0) + 1
+            fails = oracle(rule, pre, op, post, published, exc, sysm.deferred, sysm.faulted)
+            fails += getters(sysm, rule, post)
             for clause, disc, what in fails:
                 key = (clause, disc)
                 if key in sig:
                     sig[key]["count"] += 1
                 else:
-                    sig[key] = {"clause": clause, "disc": disc, "what": what, "count": 1, "replay": {"rule": rule, "init": init, "path": path, "op": op, "republish": republish}}
+                    sig[key] = {"clause": clause, "disc": disc, "what": what, "count": 1, "replay": {"rule": rule, "init": init, "path": path, "op": op, "mode": mode}}
             if fails and exc is not None:
                 continue
             ns = sysm.state()
@@ -257,11 +350,13 @@ def finish(tier, seed, m):
         "traces_validated_against_impl": m["transitions"],
         "graphs": m["graphs"],
         "published_messages_checked": m["published_checked"],
+        "handler_modes": [str(x) for x in MODES],
+        "operations_cut_short_by_a_failing_handler_or_client": m.get("handler_faults", 0),
         "samples": m["samples"][:3],
         "exhaustive": True,
         "explanation": "each graph (rule, n, initial configuration) is explored to fixpoint; every transition runs the real SwitchVector through the real router",
     }
-    cov["_vacuity_errors"] = [] if m["published_checked"] > 1000 else ["few published messages"]
+    cov["_vacuity_errors"] = ([] if m["published_checked"] > 1000 else ["few published messages"]) + ([] if m.get("handler_faults", 0) > 100 else ["failing handlers barely fired"])
     return cov
 
 
@@ -272,9 +367,9 @@ def _t(x):
 
 
 def replay(rep):
-    sysm = Sys(rep["rule"], _t(rep["init"]), rep.get("republish", False))
+    sysm = Sys(rep["rule"], _t(rep["init"]), rep.get("mode", "republish" if rep.get("republish") else None))
     for p in _t(rep["path"]):
-        sysm.apply(p)
+        sysm.apply_quiet(p)
     op = _t(rep["op"])
     pre = sysm.on()
     exc = None
@@ -283,4 +378,6 @@ def replay(rep):
         pub = sysm.apply(op)
     except Exception as e:
         exc = e
-    return [{"clause": c, "disc": d, "what": w} for c, d, w in oracle(rep["rule"], pre, op, sysm.on(), pub, exc)]
+    if isinstance(exc, HandlerFault) or sysm.faulted:
+        pub = [tuple((c.name, c.value) for c in m.children) for m in sysm.published if type(m).__name__ == "SetSwitchVector"]
+    return [{"clause": c, "disc": d, "what": w} for c, d, w in oracle(rep["rule"], pre, op, sysm.on(), pub, exc, sysm.deferred, sysm.faulted) + getters(sysm, rep["rule"], sysm.on())]
